@@ -34,6 +34,8 @@ def zval(x, bind=None):
         return z3.BoolVal(x)
     if isinstance(x, int):
         return z3.IntVal(x)
+    if isinstance(x, float):
+        return z3.RealVal(repr(x))
     if z3.is_expr(x):
         return x
     raise TypeError(f"no z3 value for {x!r}")
